@@ -15,7 +15,7 @@ HOOKS = {
 
 ENGINES = [
     {"name": "e1-core", "path": "lib/e1.py + harness/driver + tla/{Props,Prunner,ObsTrace}.tla",
-     "serves_properties": ["C01", "C02", "C03", "C04", "C05", "C06", "C07", "C08", "C15", "C16"],
+     "serves_properties": ["C01", "C02", "C03", "C04", "C05", "C06", "C07", "C08", "C10", "C11", "C12", "C15", "C16"],
      "kind_free_text": "TLC model checking of Prunner.tla against Props.tla; TLC-simulated behaviours replayed as scripts on the real "
                        "PipelineRunner + taskctl.Scheduler under testing/synctest virtual time; recorded ndjson traces monitored by TLC "
                        "(ObsTrace.tla EXTENDS Props)"},
@@ -47,6 +47,14 @@ CHECKS = {
     "C06": e1("FIFO clause evaluated at every step in which a waiting job becomes started.", "DESIGN.md 6 C06"),
     "C07": e1("exact under virtual time: start - accept >= delay for every started job; debounce clauses (newest wins / newest runs).", "DESIGN.md 6 C07"),
     "C08": e1("fail-fast / continue / verdict-sound / no-running-after-completed / no-run-after-failed-dependency on model and traces.", "DESIGN.md 6 C08"),
+    "C10": e1("restart steps (a new runner on a copy of the store as it is on disk) at arbitrary quiescent points of TLC-generated histories; "
+              "all-terminal / no-ghosts / same-set / finished-jobs-faithful (vocabulary fields and the /job/detail JSON byte-equal) evaluated "
+              "by TLC on the Restart line; payloads of several JSON types are sampled, not enumerated.", "DESIGN.md 6 C10"),
+    "C11": e1("graceful and forced shutdown begun at arbitrary quiescent points, with schedule/cancel/finish/poll steps interleaved; "
+              "all-terminal, store-matches, reject-after, graceful-runs-out, forced-cancels at the return; persist-within-interval exact "
+              "under virtual time.", "DESIGN.md 6 C11"),
+    "C12": e1("every step in which a job stops being reported is judged (keeps-unfinished, no-settings-no-removal, newest-first closure); "
+              "count / period bounds, undefined-purged and the three views (API, store, log directories) at every explicit save.", "DESIGN.md 6 C12"),
     "C15": e1("schedulable-iff-accepted is confronted with a real request at every schedule step; running flag, listing, order and "
               "timestamps checked at every quiescent snapshot taken through the HTTP handler and IterateJobs.", "DESIGN.md 6 C15"),
     "C16": e1("commands / env / task set seen by the injected runner must be those of the version at acceptance; reload steps are inert; "
